@@ -389,3 +389,64 @@ func VerifC20Concat() {
 	verifExpect(l, 0, w, "Concat")
 	verifReach("done")
 }
+
+// verifDec64 is the reference decimal renderer for signed 64-bit integers (digit by digit, most significant first,
+// by comparison with the powers of ten: no division by a symbolic operand).
+func verifDec64(v int64) []byte {
+	var out []byte
+	u := uint64(v)
+	if v < 0 {
+		out = append(out, '-')
+		u = -u
+	}
+	n := 1
+	p := uint64(10)
+	for n < 20 && u >= p {
+		n++
+		if n == 20 {
+			break
+		}
+		p *= 10
+	}
+	digits := make([]byte, n)
+	for i := n - 1; i >= 0; i-- {
+		digits[i] = byte(u%10) + '0'
+		u /= 10
+	}
+	return append(out, digits...)
+}
+
+// VerifC20Int: Line.Int against the reference. mode 0: every value in a window of `win` values around each base
+// (0, +-2^16, +-2^31, +-2^32, +-2^48, +-10^k for k = 1, 3, 9, 10, 18; 2^63-1 and -2^63 from inside; the base is the job
+// split); mode 1: every int32 value; mode 2: every int64 value (modes 1 and 2 measured: not decided within 150 s, the
+// standard library's two-digit table lookup is case-split per digit pair - not registered).
+func VerifC20Int(mode, win int) {
+	l, start := verifLine(40)
+	name := verifName()
+	var v int64
+	switch mode {
+	case 0:
+		bases := []int64{0, 1 << 16, 1 << 31, 1 << 32, 1 << 48, 10, 1000, 1000000000, 10000000000, 1000000000000000000}
+		k := verifSplit(2*len(bases) + 2)
+		w := int64(verifU8())
+		verifAssume(w < int64(win))
+		d := w - int64(win)/2
+		switch {
+		case k < len(bases):
+			v = bases[k] + d
+		case k < 2*len(bases):
+			v = -bases[k-len(bases)] + d
+		case k == 2*len(bases):
+			v = 1<<63 - 1 - w
+		default:
+			v = -1<<63 + w
+		}
+	case 1:
+		v = int64(int32(verifU32()))
+	default:
+		v = verifI64()
+	}
+	l.Int(name, int(v))
+	verifExpect(l, start, verifField(name, verifDec64(v)), "Int")
+	verifReach("done")
+}
